@@ -1,0 +1,7 @@
+//go:build !verif
+
+package rosmar
+
+// verifPoint is a hook point used by the verification harness (build tag `verif`).
+// In regular builds it is an empty function that the compiler inlines away.
+func verifPoint(name string, tag string) {}
